@@ -97,19 +97,38 @@ Theorem hypotheses_satisfiable :
 Proof. exact (conj ex_wf (conj ex_init ex_ops_wf)). Qed.
 
 (** the dirty-set controller (ParameterController._changed / _update_suspended /
-    updates_postponed / _updateIntermediateValues): after ANY sequence of leaf
-    assignments and postponed blocks — provided no block raises, or the exit code
-    of updates_postponed sits in a `finally:` clause ([fin = true], the proposed
-    fix) — updates are not suspended and every definition value is the one a
-    fresh evaluation from the final settings gives *)
-Theorem controller_refines_fresh : forall (V : Type) (dflt : V) (h : nat -> list V -> V) fin g asg ops,
-  wf_dgraph g ->
+    updates_postponed / _updateIntermediateValues), definition updates that RAISE
+    part-way through a propagation included ([fails]; the exception reaches the
+    caller, who may go on changing settings).  With the dirty set retained across a
+    raising update ([retain = true]: the pinned code clears _changed only after the
+    loop) and postponed blocks that exit normally or through `finally:` —
+    after ANY history updates are not suspended, and whenever the dirty set is empty
+    (i.e. the last propagation went through: failed ones followed by a successful
+    one) every definition value is the one a fresh evaluation from the final
+    settings gives *)
+Theorem controller_refines_fresh : forall (V : Type) (dflt : V) (h : nat -> list V -> V)
+    (fails : nat -> list V -> bool) (retain : bool) fin g asg ops,
+  wf_dgraph g -> retain = true ->
   (fin = true \/ Forall (no_raise V) ops) ->
-  let s := fold_left (cstep V dflt h fin g) ops (cinit V dflt h g asg) in
-  suspended V s = false /\
-  values V s = cfresh V dflt h g (spec_asg V asg ops) /\
-  final V dflt g s = nth (length g - 1) (cfresh V dflt h g (spec_asg V asg ops)) dflt.
+  let s := fold_left (cstep V dflt h fails retain fin g) ops (cinit V dflt h fails retain g asg) in
+  suspended V s = false /\ assigned V s = spec_asg V asg ops /\
+  (changed V s = [] ->
+     values V s = cfresh V dflt h g (spec_asg V asg ops) /\
+     final V dflt g s = nth (length g - 1) (cfresh V dflt h g (spec_asg V asg ops)) dflt).
 Proof. exact ctl_refines_fresh. Qed.
+
+(** ... and the swap-and-clear variant ([retain = false]) is refuted: a rejected
+    assignment followed by a repairing one leaves a definition stale although the
+    dirty set is empty; the retaining variant is right on the same history *)
+Theorem lost_dirty_set_refuted :
+  let g : dgraph := [[]; []; [0; 1]; [0]] in
+  let ops := [CAssign 0 5; CAssign 1 10] in
+  wf_dgraph g /\
+  (let s := fold_left (cstep nat 0 hsum fails_ex false true g) ops (cinit nat 0 hsum fails_ex false g [1; 20; 0; 0]) in
+   changed nat s = [] /\ values nat s <> cfresh nat 0 hsum g (assigned nat s)) /\
+  (let s := fold_left (cstep nat 0 hsum fails_ex true true g) ops (cinit nat 0 hsum fails_ex true g [1; 20; 0; 0]) in
+   changed nat s = [] /\ values nat s = cfresh nat 0 hsum g (assigned nat s)).
+Proof. exact lost_dirty_set_stale. Qed.
 
 (** rule export -> import (Setting.get_param_rule_dict -> set_param_rule ->
     assign_all, one scope): the imported setting IS the exported one, for every
@@ -234,6 +253,6 @@ Proof. exact scope_hypotheses_satisfiable. Qed.
 Theorem postponed_exception_refuted :
   exists (g : dgraph) (asg : list nat) (ops : list (cop nat)),
     wf_dgraph g /\
-    let s := fold_left (cstep nat 0 hsum false g) ops (cinit nat 0 hsum g asg) in
+    let s := fold_left (cstep nat 0 hsum (fun _ _ => false) true false g) ops (cinit nat 0 hsum (fun _ _ => false) true g asg) in
     final nat 0 g s <> nth (length g - 1) (cfresh nat 0 hsum g (assigned nat s)) 0.
 Proof. exact postponed_exception_stale. Qed.
